@@ -20,7 +20,7 @@ DAY = datetime.timedelta(days=1)
 CHAIN_FAULTS = [
     "C.untrusted-issuer", "C.impostor-root-same-name", "C.leaf-expired", "C.leaf-not-yet", "C.int-expired",
     "C.int-not-yet", "C.root-expired", "C.sig-corrupt-leaf", "C.sig-corrupt-int", "C.int-missing", "C.int-not-ca",
-    "C.self-signed-leaf",
+    "C.self-signed-leaf", "C.evil-root-in-x5c",
 ]
 # faults that only mean something when the chain has an intermediate (one is added if none was asked for)
 NEED_INTERMEDIATE = {"C.int-expired", "C.int-not-yet", "C.sig-corrupt-int", "C.int-missing", "C.int-not-ca"}
@@ -128,6 +128,7 @@ class Chain:
     root: x509.Certificate
     issuing_root: Optional[x509.Certificate] = None
     withheld: List[x509.Certificate] = field(default_factory=list)   # intermediates that exist but stay out of x5c
+    smuggle_issuing_root: bool = False
 
     def x5c(self, order: str = "normal", extras=(), include_root: bool = False) -> List[bytes]:
         """DER certificates, leaf first.  "reversed" lists the intermediates root-side first;
@@ -138,7 +139,9 @@ class Chain:
         elif order != "normal":
             raise ValueError(f"unknown chain order {order!r}")
         tail = [self.root] if include_root else []
-        return [_der(c) for c in [self.leaf] + presented + list(extras) + tail]
+        # C.evil-root-in-x5c: the attacker ships the self-signed CA that really issued the chain
+        smuggled = [self.issuing_root] if self.smuggle_issuing_root and self.issuing_root is not None else []
+        return [_der(c) for c in [self.leaf] + presented + smuggled + list(extras) + tail]
 
     def root_pem(self) -> bytes:
         return self.root.public_bytes(serialization.Encoding.PEM)
@@ -180,7 +183,7 @@ def _intermediate(idx: int, issuer_cert, issuer_key, key, window, base, faults: 
 
 def _trusted_root(real_root, faults: set, other_key, base) -> x509.Certificate:
     """The root handed to the relying party: the real one unless a fault says it is some other CA."""
-    if "C.untrusted-issuer" in faults:
+    if "C.untrusted-issuer" in faults or "C.evil-root-in-x5c" in faults:
         return _root(OTHER_ROOT_NAME, other_key, DEFAULT_VALIDITY["root"], base)
     if "C.impostor-root-same-name" in faults:
         return _root(ROOT_NAME, other_key, DEFAULT_VALIDITY["root"], base)
@@ -226,4 +229,5 @@ def build_chain(leaf_pubkey, *, leaf_subject: Optional[x509.Name] = None, leaf_e
                      corrupt_signature="C.sig-corrupt-leaf" in faults, **_dates(_window("leaf", validity, faults), base))
 
     return Chain(leaf=leaf, intermediates=intermediates, root=_trusted_root(real_root, faults, other_root_key, base),
-                 issuing_root=real_root, withheld=intermediates[:1] if "C.int-missing" in faults else [])
+                 issuing_root=real_root, withheld=intermediates[:1] if "C.int-missing" in faults else [],
+                 smuggle_issuing_root="C.evil-root-in-x5c" in faults)
